@@ -178,3 +178,24 @@ Proof.
   rewrite set_ownership_in_bucket_progress by (cbn [next_id set_bal set_next_id]; lia). cbn [bind].
   eexists; reflexivity.
 Qed.
+
+
+(* the *_from variants: once the spender's authorisation and approval are accepted they run the owner's path *)
+Lemma has_auth_self a : has_auth [a] a = true.
+Proof. unfold has_auth. cbn. rewrite N.eqb_refl. reflexivity. Qed.
+Lemma transfer_from_as_transfer fl c s auths sp from to id :
+  has_auth auths sp = true -> check_spender_approval s sp from id = Ok tt ->
+  exec fl c s (TransferFrom auths sp from to id) = exec fl c s (Transfer [from] from to id).
+Proof. intros Ha Hc. cbn [exec]. rewrite Ha, Hc, has_auth_self. reflexivity. Qed.
+Lemma burn_from_as_burn fl c s auths sp from id :
+  has_auth auths sp = true -> check_spender_approval s sp from id = Ok tt ->
+  exec fl c s (BurnFrom auths sp from id) = exec fl c s (Burn [from] from id).
+Proof. intros Ha Hc. cbn [exec]. rewrite Ha, Hc, has_auth_self. reflexivity. Qed.
+
+Lemma spender_check_progress s g sp from id : CoreInv s g ->
+  (sp =? from) || oaddr_eqb (live_appr g id) (Some sp) || live_oper g from sp = true ->
+  check_spender_approval s sp from id = Ok tt.
+Proof.
+  intros (Hc&_&Ha&Ho) H. unfold check_spender_approval.
+  apply guard_true. rewrite (get_approved_live s g Hc Ha), (is_approved_for_all_live s g Hc Ho). exact H.
+Qed.
